@@ -7,7 +7,7 @@ import lib
 
 MANIFEST = {
  "category": "proof",
- "text": "Partial. Coq theorems (all inputs, no size bound) for the lexer and for the contract the property's mechanism names - the token rules bound what reaches parseInt / parseFloat / unquote / the src_stm action, which panic on anything else: C08_lexer_progress and C08_lex_terminates (every byte string yields a token or INVALID, SKIP/COMMENT are never empty, the scanner loop ends within length+1 steps), C08_int_token_parses (whatever is labelled NUM_INT is a decimal literal that parseInt's wrapping uint64 loop converts without a panic to its value, within int64), C08_string_token_unquotes (whatever is labelled LITSTRING, any combination of escape forms, is unquoted without an index or hex panic), C08_float_token_parses_partial, C08_src_action_total, plus _refuted lemmas showing the same statements false for the code before the repairs. The model is tied to /repo on every run: the keywordToken dispatch table, the keyword literals and the four regular-expression texts are regenerated from the Go AST (a lemma states the modelled texts are the current ones), and nextToken+converter, parseInt, parseFloat, unquoteBytes, the src action and the whole scanner loop with line/column are compared with the Go code on exhaustive short inputs, boundary literals and generated near-valid programs (extracted OCaml + a kernel vm_compute sample). The LALR driver, the other grammar actions and the compiler are not modelled: they are exercised by a crash search (grammar-aware near-valid programs, every string/number position swept, truncation at every token, keywords as identifiers, include cycles, scaling shapes; every entry point under recover, a timeout and a restartable child process) whose outcome classes are tree / located error / unlocated error / panic / process crash / timeout / superlinear.",
+ "text": "Partial. Coq theorems (all inputs, no size bound) for the lexer and for the contract the property's mechanism names - the token rules bound what reaches parseInt / parseFloat / unquote / the src_stm action, which panic on anything else: C08_lexer_progress and C08_lex_terminates (every byte string yields a token or INVALID, SKIP/COMMENT are never empty, the scanner loop ends within length+1 steps), C08_lex_locations_valid (every token handed to the parser carries line >= 1 and column >= 1), C08_int_token_parses (whatever is labelled NUM_INT is a decimal literal that parseInt's wrapping uint64 loop converts without a panic to its value, within int64), C08_string_token_unquotes (whatever is labelled LITSTRING, any combination of escape forms, is unquoted without an index or hex panic), C08_float_token_parses_partial, C08_src_action_total, plus _refuted lemmas showing the same statements false for the code before the repairs. The model is tied to /repo on every run: the keywordToken dispatch table, the keyword literals and the four regular-expression texts are regenerated from the Go AST (a lemma states the modelled texts are the current ones), and nextToken+converter, parseInt, parseFloat, unquoteBytes, the src action and the whole scanner loop with line/column are compared with the Go code on exhaustive short inputs, boundary literals and generated near-valid programs (extracted OCaml + a kernel vm_compute sample). The LALR driver, the other grammar actions and the compiler are not modelled: they are exercised by a crash search (grammar-aware near-valid programs, every string/number position swept, truncation at every token, keywords as identifiers, include cycles, scaling shapes; every entry point under recover, a timeout and a restartable child process) whose outcome classes are tree / located error / unlocated error / panic / process crash / timeout / superlinear; the thorough tier also runs the mro check and mro format commands on generated files and include sets (exit status 0/1, no Go panic or fatal error trace, no hang).",
  "note": "Partial: proof level for the lexer and the token->converter contracts only; parser driver, grammar actions other than src_stm/float_32/arr_list and compile passes are searched, not proved; 'time and memory in proportion to input' is measured on scaling shapes (8x size step, 3x slack), not proved. Trusted: Coq kernel; extraction cross-checked in-kernel on a sample; extractconsts; hand-modelled Go regexp semantics for four anchored patterns, unicode.IsSpace, utf8.DecodeRune, strconv.ParseFloat (decimal syntax and overflow threshold 2^1024-2^970, literals up to 800 significant digits) - all tied by correspondence. Known findings: compile time superlinear in literal nesting depth and in the number of chained calls.",
  "technique": "Coq proof (induction over the token text; invariant relating the string rule's recogniser to the unquote loop; arithmetic of the uint64 overflow test) + differential correspondence on regenerated constants + implementation-side crash/scaling oracle",
 }
